@@ -192,6 +192,18 @@ pub fn run(args: &Args) -> i32 {
               "é", "日本", "𝄞", "a\u{a0}", "\u{a0}a", "a  b", "a \n b", "  a\n", "a\n  b\n", "x: y: z", "- - a", "key: |", "2024-01-01", "12:30:45", "1:2", "=", "!!str", "a\0b", "\u{1b}[31m"] {
         strings.push(s.to_string());
     }
+    // every letter-case variant of the words a reader may take for null, a boolean or a float (readers compare
+    // these case-insensitively, so a writer that only knows the canonical spellings breaks the round trip)
+    for wd in ["null", "true", "false", "yes", "no", "on", "off", "y", "n", ".nan", ".inf", "nan", "inf", "-.inf", "+.inf"] {
+        let letters: Vec<usize> = wd.char_indices().filter(|(_, c)| c.is_ascii_alphabetic()).map(|(i, _)| i).collect();
+        for mask in 0u32..(1 << letters.len()) {
+            let mut b: Vec<u8> = wd.bytes().collect();
+            for (k, &i) in letters.iter().enumerate() {
+                if mask & (1 << k) != 0 { b[i] = b[i].to_ascii_uppercase(); }
+            }
+            strings.push(String::from_utf8(b).unwrap());
+        }
+    }
     // long strings (block scalar heuristics)
     strings.push("word ".repeat(30));
     strings.push("word ".repeat(30) + "\nsecond line\n");
